@@ -12,6 +12,7 @@ import io
 import itertools
 import json
 import os
+import sys
 import shutil
 import tempfile
 import typing
@@ -77,6 +78,13 @@ def cases(tier, seed):
                 for tpl in TEMPLATES:
                     for infer_imports, prepend, imports_file in ((False, False, False), (True, False, False), (False, True, True), (True, True, True)):
                         yield dict(kind="gen", input=inp, parse=parse, emit=emit, tpl=tpl, infer_imports=infer_imports, prepend=prepend, imports_file=imports_file, existing=None)
+    # the input mapping given as a directory of modules (one symbol per file) and as `module.SYMBOL` naming a dict of live objects
+    for input_as in ("dir", "module_symbol"):
+        for inp in (inputs[0], inputs[1], inputs[2], inputs[4], inputs[9] if len(inputs) > 9 else inputs[-1]):
+            if input_as == "module_symbol" and "argparse" in inp["kinds"]:
+                continue
+            for emit in EMITS:
+                yield dict(kind="gen", input=inp, parse="infer", emit=emit, tpl="{name}Config", infer_imports=True, prepend=False, imports_file=False, existing=None, input_as=input_as)
     # the non-clobbering guard: output present (empty / with content)
     for emit in EMITS:
         for existing in ("content", "empty"):
@@ -159,9 +167,25 @@ def _run(case):
             names, kinds = ["alphajson"], ["json_schema"]  # the mapping key is the file name; the template result is made a valid identifier
         else:
             names, kinds = case["input"]["names"], case["input"]["kinds"]
-            src = os.path.join(d, "inp.py")
-            with open(src, "wt") as f:
-                f.write("from typing import *\n\n\n" + "\n\n\n".join(render_symbol(k, n) for k, n in zip(kinds, names)) + "\n")
+            input_as = case.get("input_as", "file")
+            ctx["input_as"] = input_as
+            if input_as == "file":
+                src = os.path.join(d, "inp.py")
+                with open(src, "wt") as f:
+                    f.write("from typing import *\n\n\n" + "\n\n\n".join(render_symbol(k, n) for k, n in zip(kinds, names)) + "\n")
+            elif input_as == "dir":
+                src = os.path.join(d, "inputs")
+                os.mkdir(src)
+                # file names in an order different from both creation order and symbol order
+                for fname, (k, n) in zip(("m_b.py", "m_c.py", "m_a.py", "m_e.py", "m_d.py"), zip(kinds, names)):
+                    with open(os.path.join(src, fname), "wt") as f:
+                        f.write("from typing import *\n\n\n" + render_symbol(k, n) + "\n")
+            else:
+                modname = "c19_inmod_%d" % os.getpid()
+                with open(os.path.join(d, modname + ".py"), "wt") as f:
+                    f.write("from typing import *\n\n\n" + "\n\n\n".join(render_symbol(k, n) for k, n in zip(kinds, names)) + "\n\n\nMAPPING = {%s}\n" % ", ".join("%r: %s" % (n, n) for n in names))
+                sys.path.insert(0, d)
+                src = modname + ".MAPPING"
             parse = kinds[0] if case["parse"] == "explicit" else "infer"
             argv = ["gen", "--name-tpl", case["tpl"], "--input-mapping", src, "--parse", parse, "--emit", case["emit"], "-o", out]
             if case["infer_imports"]:
